@@ -28,3 +28,16 @@ Example c14_example :
                                        CopyEof FErr; CloseStream] in
   closed s = true /\ deliv_o s = [1; 2; 3; 4; 5] /\ deliv_e s = [9; 8].
 Proof. vm_compute. repeat split; reflexivity. Qed.
+
+From CRS Require Import Proofs.CmdShellLive.
+(** No run can get stuck: from every state of every run there is a
+    continuation (the child writes what it has left and exits, the copiers
+    drain the pipes and see end of file, the stream is closed) after which the
+    stream has ended and everything the command wrote has been delivered.
+    (That the continuation is actually taken is scheduling fairness: the
+    goroutines and the child are runnable.) *)
+Theorem c14_every_run_can_complete : forall o e sched,
+  let s := crun o e sched in
+  let s' := fold_left cnext (finish s) s in
+  closed s' = true /\ deliv_o s' = o /\ deliv_e s' = e.
+Proof. exact every_run_can_complete. Qed.
